@@ -34,20 +34,19 @@ Proof.
 Qed.
 
 (* the wire word of a reply, as the receiver reads it *)
-Definition wire_id (body : bytes) : option N :=
+Definition wire_id (fixed : bool) (body : bytes) : option N :=
   match body with
-  | a :: b :: c :: d :: _ =>
-    let w := be_dec [a; b; c; d] in if 2 ^ 31 <=? w then Some (w - 2 ^ 31) else if w =? 0 then Some 0 else None
+  | a :: b :: c :: d :: _ => wire_key fixed (be_dec [a; b; c; d])
   | _ => None
   end.
 
 (* a reply whose id is not registered (stale, foreign, duplicate, no request bit, short) changes no context,
    wakes nobody, produces no observation and leaves the id table alone *)
-Lemma pipe_recv_unmatched s p body :
-  wire_id body = None \/ (exists id, wire_id body = Some id /\ aget id (ctxByID s) = None) ->
-  ctxs (pipe_recv s p body) = ctxs s /\ out (pipe_recv s p body) = out s /\
-  woken (pipe_recv s p body) = woken s /\ threads (pipe_recv s p body) = threads s /\
-  ctxByID (pipe_recv s p body) = ctxByID s.
+Lemma pipe_recv_unmatched fixed s p body :
+  wire_id fixed body = None \/ (exists id, wire_id fixed body = Some id /\ aget id (ctxByID s) = None) ->
+  ctxs (pipe_recv fixed s p body) = ctxs s /\ out (pipe_recv fixed s p body) = out s /\
+  woken (pipe_recv fixed s p body) = woken s /\ threads (pipe_recv fixed s p body) = threads s /\
+  ctxByID (pipe_recv fixed s p body) = ctxByID s.
 Proof.
   intros H. unfold pipe_recv, wire_id in *.
   destruct body as [|a [|b [|c [|d payload]]]]; try (repeat split; reflexivity).
@@ -56,7 +55,7 @@ Proof.
   assert (E : ctxs s1 = ctxs s /\ out s1 = out s /\ woken s1 = woken s /\ threads s1 = threads s /\ ctxByID s1 = ctxByID s).
   { subst s1. destruct (existsb (N.eqb p) (readyQ s)); repeat split; reflexivity. }
   destruct E as (E1 & E2 & E3 & E4 & E5).
-  destruct (if 2 ^ 31 <=? w then Some (w - 2 ^ 31) else if w =? 0 then Some 0 else None) as [id|] eqn:Ew.
+  destruct (wire_key fixed w) as [id|] eqn:Ew.
   - destruct H as [H|(id' & Hid & Hn)]; [discriminate|]. inversion Hid; subst id'.
     rewrite E5, Hn. auto.
   - auto.
@@ -75,9 +74,9 @@ Lemma stop_timer_byid s o : ctxByID (stop_timer s o) = ctxByID s.
 Proof. destruct o; reflexivity. Qed.
 
 (* a matched reply removes the id from the table: a second copy of it matches nothing *)
-Lemma pipe_recv_consumes s p body id c y :
-  keys_nodup (ctxByID s) -> wire_id body = Some id -> aget id (ctxByID s) = Some c -> aget c (ctxs s) = Some y ->
-  aget id (ctxByID (pipe_recv s p body)) = None.
+Lemma pipe_recv_consumes fixed s p body id c y :
+  keys_nodup (ctxByID s) -> wire_id fixed body = Some id -> aget id (ctxByID s) = Some c -> aget c (ctxs s) = Some y ->
+  aget id (ctxByID (pipe_recv fixed s p body)) = None.
 Proof.
   intros Hk Hw Hg Hy. unfold pipe_recv, wire_id in *.
   destruct body as [|a [|b [|c' [|d payload]]]]; try discriminate.
